@@ -52,4 +52,6 @@ def run(ctx, rep):
     # W13: a const member is registered def_readonly (def_readwrite of a const member does not compile) (= C04 B5)
     rep.run(RP.rule_property_polarity, ctx, rep, "W13")
     rep.run(RP.rule_class_block_by_evaluation, ctx, rep, "W14", part="wellformed")
+    # W15: every operator entry has the form pybind11 knows (`.def(-py::self)`, `.def(py::self - py::self)`): `.def(py::self)` alone matches no overload (= C03 A11)
+    rep.run(RP.rule_operator_bindings_by_evaluation, ctx, rep, "W15")
     rep.run(RF.rule_locals_defined, ctx, rep, "U1", packages=("gtwrap/pybind_wrapper.py",), min_functions=3)
